@@ -3,7 +3,7 @@
 use crate::{
     Error, Result,
     compression::{compress, flags as compression_flags},
-    crypto::{encrypt_block, hash_string, hash_type, het_hash, jenkins_hash},
+    crypto::{encrypt_block, hash_string, hash_type, het_hash},
     header::{FormatVersion, MpqHeaderV4Data},
     special_files::{AttributeFlags, Attributes, FileAttributes},
     tables::{BetHeader, BlockEntry, BlockTable, HashEntry, HashTable, HetHeader, HiBlockTable},
@@ -2175,15 +2175,15 @@ impl ArchiveBuilder {
                 // Write to file table
                 self.write_bit_entry(&mut file_table, i, entry_bits, table_entry_size)?;
 
-                // Generate BET hash (Jenkins one-at-a-time hash of filename)
-                // Note: BET uses Jenkins one-at-a-time, not hashlittle2 like HET
+                // Generate BET hash: the same name hash the HET table is built from, as the
+                // reader's BetTable::verify_file_hash computes it
                 let filename = if i < self.pending_files.len() {
                     &self.pending_files[i].archive_name
                 } else {
                     // This must be the attributes file
                     "(attributes)"
                 };
-                let hash = jenkins_hash(filename);
+                let (hash, _) = het_hash(filename, bet_hash_size);
                 bet_hashes.push(hash);
             }
         }
